@@ -202,6 +202,11 @@ pub fn take_unix_records() -> Vec<UnixRecord> {
 pub fn tcp_listening(addr: &str) -> bool {
     lock(&WORLD).tcp.contains_key(addr)
 }
+/// A task is parked in accept() on this TCP listener (its waker is registered).
+pub fn tcp_accept_pending(addr: &str) -> bool {
+    let l = lock(&WORLD).tcp.get(addr).cloned();
+    l.map(|l| lock(&l).waker.is_some()).unwrap_or(false)
+}
 pub fn unix_listening(path: &Path) -> bool {
     lock(&WORLD).unix.contains_key(path)
 }
